@@ -53,8 +53,9 @@ def rows(mods):
     row(src='pe.cui', name='to_ruc', conv=lambda m, x: m.to_ruc(x), tgt='pe.ruc',
         ident=lambda v, r: r[:2] == '10' and r[2:10] == v[:8], inv=lambda mods, r: M(mods, 'pe.ruc').to_dni(r),
         inv_eq=lambda v, b: b == v[:8])
-    row(src='pe.ruc', name='to_dni', conv=lambda m, x: m.to_dni(x), tgt='pe.cui', guard=lambda v: v.startswith('10'),
-        ident=lambda v, r: r[:8] == v[2:10])
+    # only numbers of natural persons (prefix 10) have a DNI: other RUCs may be refused, and what is returned converts back
+    row(src='pe.ruc', name='to_dni', conv=lambda m, x: m.to_dni(x), tgt='pe.cui', may_reject=lambda v: not v.startswith('10'),
+        ident=lambda v, r: r[:8] == v[2:10], inv=lambda mods, r: M(mods, 'pe.cui').to_ruc(r))
     row(src='in_.gstin', name='to_pan', conv=lambda m, x: m.to_pan(x), tgt='in_.pan', ident=lambda v, r: r == v[2:12])
     row(src='it.aic', name='to_base32', conv=lambda m, x: m.to_base32(x), tgt='it.aic', guard=lambda v: len(v) == 9,
         ident=lambda v, r: True, inv=lambda mods, r: M(mods, 'it.aic').from_base32(r), canon_tgt=lambda mods, r: M(mods, 'it.aic').validate(r))
